@@ -159,7 +159,7 @@ pub fn lc_query_set_to_poly_query_set<'a>(linear_combinations: Vec<&'a LinearCom
 pub struct PC;
 impl PC {
 //@stub from=batch_default.rs id=lib.batch_check
-//@fn id=lib.check_combinations file=poly-commit/src/lib.rs scope="pub trait PolynomialCommitment<F: PrimeField, P: Polynomial<F>>: Sized" name=check_combinations props=C06,C05,C17,C02
+//@fn id=lib.check_combinations file=poly-commit/src/lib.rs scope="pub trait PolynomialCommitment<F: PrimeField, P: Polynomial<F>>: Sized" name=check_combinations props=C06,C05,C17,C02,C11
     #[verifier::loop_isolation(false)]
     fn check_combinations<'a>(vk: &VK, linear_combinations: Vec<&'a LinearCombination>, commitments: Vec<&'a LabeledCommitment<Comm>>, eqn_query_set: &BTreeSet<(String, (String, Pt))>, eqn_evaluations: &BTreeMap<(String, Pt), Fr>, proof: &BatchLCProof, sponge: &mut Sponge, rng: &mut Rng) -> (res: Result<bool, Error>)
     ensures
